@@ -208,6 +208,46 @@ CLAIMED = {
         "by the fuzz stream only; hang = no answer within the harness watchdog.",
    technique="Coq termination proof for the Pratt parser on the regenerated table + fuzz correspondence with no-panic / no-hang / no-effect-on-error oracles",
    design="7 (C16)"),
+ "C01": dict(
+   text="Props/C01.v, for the commit/checkpoint/crash/recovery protocol model (Model/Crash.v: BEGIN/operation/COMMIT/ABORT/END "
+        "records, log force at END, checkpoint = force + data file + header + truncate, analysis, id-ordered redo under a recovery "
+        "transaction, losers marked aborted) with an arbitrary logical database: for every interleaving of any number of "
+        "transactions and every crash point (every prefix of the event list), crash + recovery yields exactly the versions written "
+        "by the transactions whose COMMIT record is durable, in the order written, and every transaction whose commit call returned "
+        "is durable (C01_durable, by an invariant over all reachable engine states; C01_recover is the disk-level theorem). "
+        "Hypotheses: checkpoints happen while no transaction is open (otherwise refuted, C02) and reordered winners commute. "
+        "The model is run against the engine at every crash point: with the I/O tap on, a history runs, the image at each prefix of "
+        "the file mutations is rebuilt and reopened; forced log records and recovered contents are compared with the model, the "
+        "contents also with RefDB (SQL histories with DDL, sessions, batches, checkpoints, VACUUM, long logs, tiny caches) and "
+        "with a model-independent id oracle.  Nine engine defects found this way were fixed; crash points at which the data file "
+        "is ahead of the last completed checkpoint (inside a checkpoint, after an eviction) are a recorded finding.",
+   note="Trusted: Coq kernel + vm_compute; the I/O tap and image rebuild (writes reach the device in issue order, single writes "
+        "atomic); RefDB as reference; python generators.  Page stealing and the non-atomic part of a checkpoint are outside the "
+        "model (recorded finding); B+tree/pager code that re-executes logged operations is covered by correspondence only.",
+   technique="Coq invariant proof over a protocol state machine + differential correspondence at every crash point (I/O-tap crash images vs model and RefDB evaluated by vm_compute)",
+   design="7 (C01)"),
+ "C02": dict(
+   text="Props/C02.v: same model; crash + recovery yields exactly the durable transactions' versions (no transaction in part), and a "
+        "transaction that is open or was rolled back (ROLLBACK, dropped session, failed statement or batch) is never durable "
+        "(C02_exact); the analysis pass puts a transaction in the redo set iff its COMMIT record is in the log (C02_analysis). "
+        "Without the quiescent-checkpoint hypothesis the statement is refuted on the faithful model (C02_checkpoint_open_refuted): a "
+        "transaction open at a checkpoint that logs nothing afterwards becomes visible after recovery - reproduced on the engine "
+        "and recorded.  Crash-image correspondence as C01 on histories that mix committed, rolled-back, failed and open "
+        "transactions over cache sizes 6-10000.",
+   note="As C01.  The unstamped-UPDATE finding of C03 makes live answers diverge from RefDB; such histories are not judged here.",
+   technique="Coq invariant proof + refutation witness replayed on the engine + crash-image correspondence",
+   design="7 (C02)"),
+ "C08": dict(
+   text="Props/C08.v: recovery of the model is total; a recovery interrupted after any number of its own log records reached the "
+        "disk, interrupted again, then completed yields the contents of a single uninterrupted recovery (C08_restartable, any "
+        "reachable image, depth two and by the same lemma any depth); recovery leaves an empty log and reopening changes nothing "
+        "(C08_reopen); opening a clean image shows exactly what its header says (C08_clean).  On the engine every crash image is "
+        "reopened, probed (DDL + DML on new and existing tables), closed and reopened, and the recovery that ran is itself crashed "
+        "at every prefix of its own file mutations and recovered again.",
+   note="As C01; additionally the recorded finding C08-catalog-large-cells (CREATE TABLE failing after some recoveries, the B+tree "
+        "large-cell defect of C10/C11).",
+   technique="Coq proof (restartability from the disk-level recovery theorem) + nested crash-image correspondence",
+   design="7 (C08)"),
 }
 NOT_YET = "not claimed yet: model and proofs under construction in this session (see DESIGN.md section 10, build order)"
 
